@@ -8,7 +8,7 @@ LEAN_MODULES = ["KaVerif.Props.C13"]
 GEN = ["Units"]
 THEOREMS = ["KaVerif.C13_exact_wins", "KaVerif.C13_prefix_unique", "KaVerif.C13_prefix_scales", "KaVerif.C13_unknown_iff",
             "KaVerif.C13_code_points", "KaVerif.C13_reachable", "KaVerif.C13_maps_wellformed", "KaVerif.C13_prefix_mult",
-            "KaVerif.C13_prefixes_distinct", "KaVerif.C13_dimensions", "KaVerif.C13_sizes", "KaVerif.C13_reference_covered",
+            "KaVerif.C13_prefix_table", "KaVerif.C13_prefixes_distinct", "KaVerif.C13_dimensions", "KaVerif.C13_sizes", "KaVerif.C13_reference_covered",
             "KaVerif.C13_currencies", "KaVerif.C13_ratios", "KaVerif.C13_ratios_rounded_partial",
             "KaVerif.C13_offset_units_refuse", "KaVerif.C13_case_sensitive"]
 RULE = ("EVERY registered spelling (names and symbols, ~800) and EVERY prefix x unit x {symbol-prefix+symbol, name-prefix+singular, "
@@ -253,7 +253,18 @@ def check(ctx):
                 ctx.violation("phantom:%s" % w, w, "no unit (not registered, no prefixed reading; names are case-sensitive)", ans, how % w)
         # ambiguous: the property does not say which reading wins
 
-    # prefix multipliers, duplicates
+    # prefix table against the reference (SI brochure + binary prefixes), multipliers, duplicates
+    refp = {(n, sy): (b, e) for n, sy, b, e in ref["prefixes"]}
+    for (n, sy), (b, e) in refp.items():
+        if not any(p.name_prefix == n and p.symbol_prefix == sy for p in prefixes):
+            ctx.violation("prefix-missing:%s/%s" % (n, sy), n, "prefix %s (%s) = %d^%d" % (n, sy, b, e), "not in PREFIXES", "ka.units.PREFIXES")
+    for p in prefixes:
+        r = refp.get((p.name_prefix, p.symbol_prefix))
+        if r is None:
+            ctx.notes.append("prefix %s/%s has no reference entry (not judged)" % (p.name_prefix, p.symbol_prefix))
+        elif Fraction(p.multiplier) != Fraction(r[0]) ** r[1]:
+            ctx.violation("prefix-ref:%s/%s" % (p.name_prefix, p.symbol_prefix), "1 %sm to m" % p.symbol_prefix,
+                          "%d^%d" % r, repr(p.multiplier), "ka: `1 %sm to m`" % p.symbol_prefix)
     for p in prefixes:
         ctx.count("prefix-mult:" + p.name_prefix + "/" + p.symbol_prefix, bucket="prefix-table")
         if Fraction(p.multiplier) != pmult(p) or isinstance(p.multiplier, float):
